@@ -1,2 +1,11 @@
-(* C02 uses the shared stream runner *)
-From EN Require Export Run.Stream.
+(* C02 runs the shared stream runner (kinds 0-3, 10-12) and, for the raw-JSON / file-based / compressor framers
+   (kinds 4-8), the runner of Run/C06.v *)
+From EN Require Import Lib.Bytes Lib.Sx.
+From EN Require Run.Stream Run.C06.
+
+Definition run (i : sx) : sx :=
+  match i with
+  | L (A k :: _) =>
+      if (Z.leb 4 k && Z.leb k 8)%bool then Run.C06.run i else Run.Stream.run i
+  | _ => bad_input
+  end.
